@@ -1275,6 +1275,7 @@ class Cycles:
 
         if dtype is not None:
             if dtype is int:
+                cycle_vals = np.array(cycle_vals, dtype=float)  # Don't work in place...
                 cycle_vals[np.isnan(cycle_vals)] = -1
             cycle_vals = cycle_vals.astype(dtype)
 
